@@ -1005,6 +1005,31 @@ def overlapping_same_key_subfields(rng, sv, doc):
     return d, feat
 
 
+def overlapping_typename_vs_leaf(rng, sv, doc):
+    """`zt: __typename` (String!) against a leaf of another type under mutually exclusive parents (hunt C06/3)"""
+    d = copy.deepcopy(doc)
+    feat = vo.typename_alias_construct(rng, sv, d, conflict=True)
+    if feat is None:
+        return None
+    return d, feat
+
+
+def vardef_directive(rng, sv, doc):
+    """a directive ON A VARIABLE DEFINITION (fix 370692d: they are visited now): unknown, or misplaced (`@skip`; no
+    directive of the generated schemas has location VARIABLE_DEFINITION). The Lean model does not carry these
+    directives: such documents go to the direct oracle only (corr/C06_model.py counts them)."""
+    d = copy.deepcopy(doc)
+    cands = [o for o in ops(d) if o["vars"]]
+    if not cands:
+        return None
+    v = rng.choice(rng.choice(cands)["vars"])
+    if rng.random() < 0.5:
+        v["dirs"] = [{"name": "zzUnknownDirective", "args": []}]
+        return d, "unknown-directive-on-variable-definition"
+    v["dirs"] = [{"name": "skip", "args": [{"name": "if", "value": ("bool", True)}]}]
+    return d, "misplaced-directive-on-variable-definition"
+
+
 def allowed_position_multi_op(rng, sv, doc):
     """two operations share a fragment (directly or through a nested fragment) that uses `$zzm`; one operation
     declares it with an allowed type, the other with a type that is not allowed at that position (spec 5.8.5 is per
@@ -1213,6 +1238,7 @@ INJECTORS = [
     ("directives_are_defined", "5.7.1", ["KnownDirectivesChecker"], directives_are_defined),
     ("directives_in_valid_locations", "5.7.2", ["KnownDirectivesChecker"], directives_in_valid_locations),
     ("unique_directives_per_location", "5.7.3", ["UniqueDirectivesPerLocationChecker"], unique_directives_per_location),
+    ("known_directives", "5.7.1", ["KnownDirectivesChecker"], vardef_directive),
     ("unique_variable_names", "5.8.1", ["UniqueVariableNamesChecker"], unique_variable_names),
     ("variables_are_input_types", "5.8.2", ["VariablesAreInputTypesChecker"], variables_are_input_types),
     ("all_variable_uses_defined", "5.8.3", ["NoUndefinedVariablesChecker"], all_variable_uses_defined),
@@ -1220,6 +1246,7 @@ INJECTORS = [
     ("all_variable_usages_allowed", "5.8.5", ["VariablesInAllowedPositionChecker"], variable_usages_allowed),
     ("all_variable_usages_allowed", "5.8.5", ["VariablesInAllowedPositionChecker"], allowed_position_multi_op),
     ("overlapping_fields_can_be_merged", "5.3.2", ["OverlappingFieldsCanBeMergedChecker"], overlapping_same_key_subfields),
+    ("overlapping_fields_can_be_merged", "5.3.2", ["OverlappingFieldsCanBeMergedChecker"], overlapping_typename_vs_leaf),
     ("fields_on_correct_type", "5.3.1", ["FieldsOnCorrectTypeChecker"], stack_leak_unknown_field),
     # the same rules, violated inside `... { }` under a list / non-null field
     ("fields_on_correct_type", "5.3.1", ["FieldsOnCorrectTypeChecker"], _bare(_b_unknown_field)),
